@@ -20,11 +20,11 @@ from vlib.pipeline import Case
 from vlib import gen
 
 PID = "C12"
-GEN = ["qsshift", "siqssel"]
+GEN = ["qsshift", "siqssel", "callsites"]
 LEAN = ["Ymq.Props.C12"]
 AUDIT = "Ymq.Audit.C12"
 THEOREMS = ["Ymq.C12." + t for t in (
-    "siqs_identity siqs_identity_model eval_eq_polyVal siqs_B_sq walk_B_sq min_trick gray_step roots_inv roots_walk poly_exact poly_exact_domain siqs_walk_total stale_c_check_witness size_assert_fails_470 roots_exact roots_exact_unit select_window_assert select_a_sound siqs_select_walk_total select_a_never_returns select_a_hang_witness select_assert_fires_witness siqs_params_in_domain hensel_lift mpqs_identity make_poly_total prepare_prime_exact qs_roots_exact lgblock_shift").split()]
+    "siqs_identity siqs_identity_model eval_eq_polyVal siqs_B_sq walk_B_sq min_trick gray_step roots_inv roots_walk poly_exact poly_exact_domain siqs_walk_total stale_c_check_witness size_assert_fails_470 roots_exact roots_exact_unit select_window_assert select_a_sound siqs_select_walk_total select_a_never_returns select_a_hang_witness select_assert_fires_witness siqs_params_in_domain hensel_lift mpqs_identity make_poly_total sieve_for_polys_sound callsite_offsets prepare_prime_exact qs_roots_exact lgblock_shift").split()]
 HYPOTHESES = []
 PROFILES = ["release", "chk"]
 TIMEOUT = 60.0
@@ -61,6 +61,12 @@ UNMODELLED = [
     "(exact remainder / modular inverse): properties C08 and C09",
     "next_lgblock is local to qsieve(): tied to the source by the translator, not by differential runs; the arrays of the model are one "
     "record per prime (array of structs) where the Rust code has one array per quantity",
+    "driver loops that no hook can call and that the harness therefore re-implements (their shape is pinned by translate/callsites.py, an "
+    "ExtractError breaks the check): siqs::sieve_a (prepare_a with -(mm as i64)/2, Poly::first, the loop `if idx > 0 { pol.next }`, "
+    "SieveSIQS::new arguments) in ops_poly.rs siqs_body; the loop of process_poly_block (nested fn of mpqs()) in the hook vh_poly_block "
+    "(chunks of 16, batch_inversion, one Workspace) around the REAL mpqs_poly (make_poly, dinv_modp[idx], start offset, prepare_prime, "
+    "sieve); qsieve()'s set-up loop for the backward roots (the forward roots go through the real init_sieve_for_test); the single-"
+    "polynomial ops mpqs_poly / mpqs_batchinv call prepare_prime and batch_inversion directly with a fresh workspace",
     "bnum U1024/U256/I256 operators and num_integer::sqrt are modelled as the mathematical operations with explicit range checks; "
     "slice::sort_by_key/sort as a stable merge sort, BTreeSet as a strictly increasing list",
     "the model has the semantics of the checked profile: where the release profile wraps instead (shift amount >= 64 in select_a for 17 "
@@ -109,10 +115,16 @@ def followup(case, ans):
 
 def _followup(case, ans):
     h, body = split_answer(ans)
-    if h is None or body in ("sel-panic", "no-a", "no-d"):
+    if h is None or body == "no-d":
         return None
     op = case.op
     a = case.args
+    if body in ("sel-panic", "no-a"):
+        if op != "siqs_walk" or "want" not in h:
+            return None
+        # the selection failed in the real code: the model of select_siqs_factors / select_a must fail the same way
+        want = int(h["want"])
+        return (f"siqs_select_class_m {h['N']} {h['nf']} {h['mm']} {want} {SELECT_FUEL * max(want, 1) + 100} {h['fb']} {h['sq']}", body)
     if op in ("siqs_walk", "siqs_custom"):
         if "a" not in h:
             return None
@@ -128,6 +140,8 @@ def _followup(case, ans):
         return (f"mpqs_poly_m {h['N']} {h['d']} {h['r']} {h['so']} {h['fb']} {h['sq']}", body)
     if op == "mpqs_batchinv":
         return (f"mpqs_batchinv_m {h['ds']} {h['fb']}", body)
+    if op == "mpqs_block":
+        return (f"mpqs_block_m {h['N']} {h['so']} {h['fb']} {h['sq']} {h['dbase']} {h['dstride']} {a[6]}", body)
     if op == "qs_roots":
         return (f"qs_roots_m {h['N']} {h['fb']} {h['sq']}", body)
     return None
@@ -186,7 +200,11 @@ def oracle_siqs(case, h, body):
     if msg:
         return msg
     if body in ("sel-panic", "no-a"):
-        return None                     # no polynomial was handed to the sieve
+        # no polynomial was handed to the sieve. With the driver's own parameters this must not happen (below 425 bits, where
+        # the checked profile stops at the 64-bit mask of select_a); with forced parameters it is compared with the model only.
+        if case.op == "siqs_walk" and case.args[2:6] == ["auto"] * 4 and N.bit_length() < 425:
+            return f"selection of A failed ({body}) with the driver's own parameters"
+        return None
     toks = body.split(" ")
     if toks[-1] == "panic":
         # forced (unrealistic) parameter combinations trip the size assertions of _finish_polynomial: no polynomial is
@@ -261,23 +279,12 @@ def oracle_siqs(case, h, body):
     return None
 
 
-def oracle_mpqs(case, h, body):
-    N = int(h["N"])
-    fb, sq = ints(h["fb"]), ints(h["sq"])
-    msg = check_fbase(N, fb, sq)
-    if msg:
-        return msg
-    if body in ("sel-panic", "no-d"):
-        return None
-    toks = body.split(" ")
-    d, r, so = int(h["d"]), int(h["r"]), int(h["so"])
-    if (r * r - N) % d:
-        return f"D={d}: r={r} is not a square root of n"
-    if toks[-1] == "panic":
-        return f"panic while preparing the polynomial D={d}"
+def check_mpqs_poly(N, fb, so, d, toks, kv, r=None):
+    """one polynomial record `M a b c bb d dinv` (+ optional dinv=, roots=, ev=): identities, Hensel lift, root tables"""
     a, b, c, bb, dd, dinv = (int(x) for x in toks[1:7])
-    kv = dict(t.split("=", 1) for t in toks[7:])
     where = f"D={d}"
+    if r is not None and (r * r - N) % d:
+        return f"D={d}: r={r} is not a square root of n"
     if a != d * d or dd != d:
         return f"{where}: A != D^2"
     if dinv * d % N != 1 % N:
@@ -296,18 +303,88 @@ def oracle_mpqs(case, h, body):
             return f"{where}: (Ax+B/2)^2 - n != A P(x)"
     if (2 * bb - b) % N:
         return f"{where}: bb is not B/2 modulo n"
-    for x, v, y in (tuple(int(t) for t in e.split(":")) for e in kv["ev"].split(",")):
-        if v != P(x) or (y * y - v) % N:
-            return f"{where}: eval({x}) = ({v},{y}) does not satisfy y^2 = P(x) mod n"
-    dinvs = ints(kv["dinv"])
-    for p, v in zip(fb, dinvs):
-        if (d % p == 0 and v != 0) or (d % p and (v >= p or v * d % p != 1)):
-            return f"{where}: batch inverse {v} of D modulo {p}"
+    if "ev" in kv:
+        for x, v, y in (tuple(int(t) for t in e.split(":")) for e in kv["ev"].split(",")):
+            if v != P(x) or (y * y - v) % N:
+                return f"{where}: eval({x}) = ({v},{y}) does not satisfy y^2 = P(x) mod n"
+    if "dinv" in kv:
+        for p, v in zip(fb, ints(kv["dinv"])):
+            if (d % p == 0 and v != 0) or (d % p and (v >= p or v * d % p != 1)):
+                return f"{where}: batch inverse {v} of D modulo {p}"
     lead, lin, const = a, 2 * a * so + b, P(so)
     for p, (r1, r2) in zip(fb, pairs(kv["roots"])):
         m = root_set_msg(where, p, lambda t: P(t + so), lead, lin, const, r1, r2, superset_only=(p == 2))
         if m:
             return m + f" (n={N})"
+    return None
+
+
+def oracle_mpqs(case, h, body):
+    N = int(h["N"])
+    fb, sq = ints(h["fb"]), ints(h["sq"])
+    msg = check_fbase(N, fb, sq)
+    if msg:
+        return msg
+    if body in ("sel-panic", "no-d"):
+        return None
+    toks = body.split(" ")
+    d, r, so = int(h["d"]), int(h["r"]), int(h["so"])
+    if toks[-1] == "panic":
+        if (r * r - N) % d:
+            return f"D={d}: r={r} is not a square root of n"
+        return f"panic while preparing the polynomial D={d}"
+    kv = dict(t.split("=", 1) for t in toks[7:])
+    return check_mpqs_poly(N, fb, so, d, toks, kv, r)
+
+
+def oracle_block(case, h, body):
+    """sieve_for_polys with a real width, then the polynomials as the real mpqs_poly prepared them (one workspace)"""
+    N = int(h["N"])
+    fb, sq = ints(h["fb"]), ints(h["sq"])
+    msg = check_fbase(N, fb, sq)
+    if msg:
+        return msg
+    toks = body.split(" ")
+    if toks[-1] == "panic":
+        return "panic while processing a block of polynomials"
+    so, dbase, dstride = int(h["so"]), int(h["dbase"]), int(h["dstride"])
+    drs = pairs(toks[0].split("=", 1)[1])
+    last = dbase - 1
+    for d, r in drs:
+        if not (dbase <= d < dbase + dstride) or d <= last:
+            return f"D={d} outside the block [{dbase}, {dbase + dstride}) or not increasing"
+        last = d
+        if d % 4 != 3:
+            return f"D={d} is not 3 modulo 4"
+        if r >= d or (r * r - N) % d:
+            return f"D={d}: r={r} is not a reduced square root of n modulo D"
+        if math.gcd(d, N) != 1:
+            return f"D={d} shares a factor with n"
+        if any(d % p == 0 and d != p for p in SMALL_PRIMES):
+            return f"D={d} has a small prime factor"
+    # completeness of the sieve: every admissible D of the block is listed
+    have = {d for d, _ in drs}
+    for d in range(dbase, dbase + dstride):
+        if d % 4 == 3 and d not in have and math.gcd(d, N) == 1 and not any(d % p == 0 and (dbase > p or d >= 2 * p) for p in SMALL_PRIMES):
+            rr = pow(N % d, (d + 1) // 4, d)
+            if (rr * rr - N) % d == 0:
+                return f"D={d} (root {rr}) is missing from the block"
+    i, npol = 1, 0
+    while i < len(toks):
+        if toks[i] != "M" or i + 7 >= len(toks):
+            return "malformed polynomial record"
+        rec = toks[i:i + 7]
+        kv = dict([toks[i + 7].split("=", 1)])
+        if npol >= len(drs):
+            return "more polynomials than D values"
+        d, r = drs[npol]
+        m = check_mpqs_poly(N, fb, so, d, rec, kv, r)
+        if m:
+            return m
+        npol += 1
+        i += 8
+    if npol != min(len(drs), int(case.args[6])):
+        return f"{npol} polynomials processed for {len(drs)} D values"
     return None
 
 
@@ -321,7 +398,7 @@ def oracle_select(case, h, body):
     if msg:
         return msg
     if body.endswith("sel-panic") or body.endswith("a-panic"):
-        if case.args[2:5] == ["auto", "auto", "auto"] and case.args[5] == "auto" and N.bit_length() < 425:
+        if case.args[2:6] == ["auto"] * 4 and N.bit_length() < 425:
             return "panic in select_siqs_factors/select_a with the driver's own parameters"
         return None
     kv = dict(t.split("=", 1) for t in body.split(" "))
@@ -334,6 +411,8 @@ def oracle_select(case, h, body):
         return "selection not larger than nfacs"
     if As != sorted(set(As)) or len(As) > max(want, 1):
         return "A values not increasing / more than requested"
+    if not As and case.args[2:6] == ["auto"] * 4:
+        return "no A value with the driver's own parameters"
     small = nf <= 5 and tgt.bit_length() <= 66
     for A in As:
         fac = [p for p in sel if A % p == 0]
@@ -403,6 +482,8 @@ def oracle(case, ans):
             return oracle_mpqs(case, h, body)
         if case.op == "mpqs_batchinv":
             return oracle_batchinv(case, h, body)
+        if case.op == "mpqs_block":
+            return oracle_block(case, h, body)
         if case.op == "qs_roots":
             return oracle_qs(case, h, body)
     except (ValueError, KeyError, IndexError) as e:
@@ -628,6 +709,29 @@ def mpqs_cases(rng, tier, scale):
         yield Case(f"mpqs_batchinv {n} 1 {rng.choice([16, 64, 400])} {','.join(map(str, ds))}", k=False, tag="batch")
 
 
+def mpqs_block_cases(rng, tier, scale):
+    """blocks of D values with the widths the driver uses (polystride = 200, or 50*20/7*bits(d_target)), 17..40 polynomials so that
+    the chunks of 16 and the reuse of the workspace (dinv_modp[idx], recycled sieve) are exercised"""
+    maxbits = 200 if tier == "quick" else 400
+    for j in range(6 * scale):
+        bits = min(maxbits, rng.choice([24, 32, 40, 64, 90, 128, 160, 200, 260, 330, 400]))
+        n = semiprime(rng, bits, rng.choice([1, 3, 5, 7]))
+        k = rng.choice([1, 1, 3, 5, 2])
+        N = n * k
+        mm = 32768 if bits <= 129 else rng.choice([32768, 65536])
+        a_target = math.isqrt(N >> 1 if N % 4 == 1 else N << 1) // (mm // 2)
+        d_target = max(3, math.isqrt(a_target))
+        stride = 200 if N.bit_length() <= 32 else 50 * 20 // 7 * d_target.bit_length()
+        base = d_target - min(d_target // 10, stride) if d_target >= 20 else d_target
+        base += stride * rng.choice([0, 0, 1, 3])
+        fbs = rng.choice([24, 80, 240, 800][:2 + min(2, bits // 60)])
+        yield Case(f"mpqs_block {n} {k} {fbs} {mm} {base} {stride} {rng.choice([17, 20, 33, 40])}", k=False, tag="block")
+    # small bases: D inside the factor base, D below the small primes (offset 2p rule of the sieve)
+    for _ in range(2 * scale):
+        n = semiprime(rng, rng.choice([24, 30, 40]), rng.choice([1, 3, 5, 7]))
+        yield Case(f"mpqs_block {n} 1 40 32768 {rng.choice([3, 3, 7, 50, 150])} 200 33", k=False, tag="block-small")
+
+
 def mpqs_outside(rng, scale):
     """make_poly called with D^2 > n: `n - h1*h1` underflows. The model predicts the checked profile."""
     for _ in range(6 * scale):
@@ -657,6 +761,7 @@ def cases(tier, rng, extended=False):
     yield from siqs_custom_cases(rng, tier, scale)
     yield from siqs_select_cases(rng, tier, scale)
     yield from mpqs_cases(rng, tier, scale)
+    yield from mpqs_block_cases(rng, tier, scale)
     yield from mpqs_outside(rng, scale)
     yield from qs_cases(rng, tier, scale)
 
@@ -718,6 +823,10 @@ def klass(case, ans):
         if case.args[1] != "1":
             tags.append("mult")
         return f"mpqs/n8={N % 8}/" + "/".join(tags)
+    if op == "mpqs_block":
+        n_d = 0 if body.startswith("drs=- ") or body == "drs=-" else body.split(" ")[0].count(",") + 1
+        npol = body.count(" M ")
+        return f"mpqs_block/n8={N % 8}/D={'0' if n_d == 0 else '1-16' if n_d <= 16 else '17+'}/polys={'<=16' if npol <= 16 else '17+'}" + ("/panic" if tags else "")
     if op == "qs_roots":
         if N % 8 == 1:
             tags.append("only-odds")
